@@ -284,7 +284,7 @@ func c18Cells(c *Ctx, s string) {
 	// ... and the other carriers of a text the item zoo knows (named string types of this and of other packages,
 	// unnamed structs with promoted methods, types with look-alike methods, distinct types that print under one
 	// name - the numeric one first), plus numbers and a bool: whatever text a cell reports, its metrics are that text's
-	zoo := []string{"twinnameNum", "twinnameBool", "twinnameStr", "mystr", "tplhtml", "tplattr", "anonG", "anonPS", "anonSE", "lookS", "lookSB", "lookW", "lookH", "lookNone", "err", "bytes", "cellcycle2", "jsonnumber", "int64", "float", "fmtstr"}
+	zoo := []string{"twinnameNum", "twinnameBool", "twinnameStr", "mystr", "tplhtml", "tplattr", "anonG", "anonPS", "anonSE", "lookS", "lookSB", "lookW", "lookH", "lookNone", "err", "bytes", "cellcycle2", "jsonnumber", "int64", "float", "fmtstr", "numlabel", "floatlabel", "boollabel", "durmicro", "fielder", "cellish"}
 	if h := int(gen.Hash64("c18 carriers", s) % 1200); h%12 != 0 {
 		// (three of them per string, all of them for every twelfth string)
 		k := h % len(zoo)
